@@ -511,6 +511,12 @@ func writeComputedFieldExpression(w *formatting.IndentedWriter, expression dsl.E
 				} else {
 					self.Visit(t.Target, tailWrapper{})
 				}
+				if t.Kind == dsl.MemberAccessField && t.Target != nil && isNumpyRecordValue(t.Target) {
+					// the target is a numpy structured scalar (numpy.void), not an instance of the
+					// record class: its fields are read by dtype field name, it has no field attributes
+					fmt.Fprintf(w, "[%q]", common.FieldIdentifierName(t.Member))
+					return
+				}
 				w.WriteString(".")
 				if t.Kind == dsl.MemberAccessComputedField {
 					fmt.Fprintf(w, "%s()", common.ComputedFieldIdentifierName(t.Member))
@@ -527,6 +533,10 @@ func writeComputedFieldExpression(w *formatting.IndentedWriter, expression dsl.E
 							isTargetArray = true
 						}
 					}
+				}
+				if isTargetArray && isRecordType(t.GetResolvedType()) {
+					// an element of an array of records is a numpy.void, not an instance of the record class
+					isTargetArray = false
 				}
 				if isTargetArray {
 					// a cast is needed for numpy subscripting
@@ -663,6 +673,37 @@ func writeComputedFieldExpression(w *formatting.IndentedWriter, expression dsl.E
 			panic(fmt.Sprintf("Unknown expression type '%T'", t))
 		}
 	})
+}
+
+func isRecordType(t dsl.Type) bool {
+	if st, ok := dsl.GetUnderlyingType(t).(*dsl.SimpleType); ok {
+		_, isRecord := st.ResolvedDefinition.(*dsl.RecordDefinition)
+		return isRecord
+	}
+	return false
+}
+
+// isNumpyRecordValue reports whether the expression denotes a numpy structured scalar (numpy.void)
+// rather than an instance of the generated record class: an element of an array of records, or a
+// record-typed field of such a value (a nested structured dtype).
+func isNumpyRecordValue(e dsl.Expression) bool {
+	switch e := e.(type) {
+	case *dsl.SubscriptExpression:
+		if e.Target == nil {
+			return false
+		}
+		gt, ok := dsl.GetUnderlyingType(e.Target.GetResolvedType()).(*dsl.GeneralizedType)
+		if !ok {
+			return false
+		}
+		if _, isArray := gt.Dimensionality.(*dsl.Array); !isArray {
+			return false
+		}
+		return isRecordType(e.GetResolvedType())
+	case *dsl.MemberAccessExpression:
+		return e.Kind == dsl.MemberAccessField && e.Target != nil && isNumpyRecordValue(e.Target) && isRecordType(e.GetResolvedType())
+	}
+	return false
 }
 
 func writeSwitchCaseOverOptional(w *formatting.IndentedWriter, switchCase *dsl.SwitchCase, variableName string, isLastCase bool, visitor dsl.VisitorWithContext[tailWrapper], tail tailWrapper) {
